@@ -109,7 +109,18 @@ def run_tlc(module: str, cfg: str | None = None, *, workers: int = 1, env: dict 
     v = _VIOL.search(out)
     if v:
         res.violated = v.group(1) or v.group(2) or "temporal"
-    for line in out.splitlines():
+    lines = out.splitlines()
+    joined, buf = [], None
+    for line in lines:              # TLC wraps long PrintT values over several lines: re-join tuples
+        if buf is not None:
+            buf += " " + line.strip()
+            if line.rstrip().endswith(">>"):
+                joined.append(buf.replace("<< ", "<<").replace(" >>", ">>")); buf = None
+        elif line.startswith("<<") and not line.rstrip().endswith(">>"):
+            buf = line.rstrip()
+        else:
+            joined.append(line)
+    for line in joined:
         if line.startswith('"{') or line.startswith('"['):
             try:
                 res.emitted.append(json.loads(json.loads(line)))
